@@ -1111,6 +1111,7 @@ class Interp(Engine):
             _, ty = self.fkey(obj.cls, node.attr)
             terms = [self.fresh("hv_%s%s" % (node.attr, (".%d" % i) if i else ""), s_)
                      for i, s_ in enumerate(sorts(ty))]
+            self.note_unsigned(ty, terms)
             val = unpack(ty, terms, None)      # may be a pre-state object or one allocated by the callee
             if ty.kind in ("ref", "list", "dict", "ext") and not ty.nullable:
                 self.assume(terms[0] != 0)
